@@ -79,13 +79,13 @@ Section Stable.
         * rewrite nget_nset_other in Hy by exact Hu. apply (thread_ok_frame s _ u y (HA u y Hy)); [reflexivity|reflexivity].
       + intro r0. apply HB.
     - (* PHit: Lock *)
-      destruct Hp as [-> Hh]. inversion Hstep; subst s'; clear Hstep. unfold try_lock. rewrite Hc. cbn [is_reader negb].
+      destruct Hp as [-> Hh]. inversion Hstep; subst s'; clear Hstep. unfold try_lock, holds_rec. rewrite Hh. cbn [existsb]. rewrite Hc. cbn [is_reader negb].
       rewrite (proj2 (HB r)). destruct (lock_free true (get_rec r s)) eqn:Hf.
       + assert (Hwn : r_w (get_rec r s) = None) by (unfold lock_free in Hf; destruct (r_w (get_rec r s)); [discriminate|reflexivity]).
         split.
         * intros u y Hy. cbn [ths set_th set_rec] in Hy. destruct (Nat.eq_dec u t) as [->|Hu].
           -- rewrite nget_nset_same in Hy. inversion Hy; subst y. exists k, r. cbn [t_cmd t_pc t_held].
-             split; [reflexivity|]. split; [exact Hi|]. rewrite Hh. split; [reflexivity|]. split; [reflexivity|].
+             split; [reflexivity|]. split; [exact Hi|]. rewrite ?Hh. split; [reflexivity|]. split; [reflexivity|].
              rewrite get_rec_set_th, get_set_rec_same. reflexivity.
           -- rewrite nget_nset_other in Hy by exact Hu.
              apply (thread_ok_frame s _ u y (HA u y Hy)); [reflexivity|].
@@ -100,13 +100,13 @@ Section Stable.
           -- rewrite nget_nset_other in Hy by exact Hu. apply (thread_ok_frame s _ u y (HA u y Hy)); reflexivity.
         * intro r0. apply HB.
     - (* PWait: Lock again *)
-      destruct Hp as [-> Hh]. inversion Hstep; subst s'; clear Hstep. unfold try_lock. rewrite Hc. cbn [is_reader negb].
+      destruct Hp as [-> Hh]. inversion Hstep; subst s'; clear Hstep. unfold try_lock, holds_rec. rewrite Hh. cbn [existsb]. rewrite Hc. cbn [is_reader negb].
       rewrite (proj2 (HB r)). destruct (lock_free true (get_rec r s)) eqn:Hf.
       + assert (Hwn : r_w (get_rec r s) = None) by (unfold lock_free in Hf; destruct (r_w (get_rec r s)); [discriminate|reflexivity]).
         split.
         * intros u y Hy. cbn [ths set_th set_rec] in Hy. destruct (Nat.eq_dec u t) as [->|Hu].
           -- rewrite nget_nset_same in Hy. inversion Hy; subst y. exists k, r. cbn [t_cmd t_pc t_held].
-             split; [reflexivity|]. split; [exact Hi|]. rewrite Hh. split; [reflexivity|]. split; [reflexivity|].
+             split; [reflexivity|]. split; [exact Hi|]. rewrite ?Hh. split; [reflexivity|]. split; [reflexivity|].
              rewrite get_rec_set_th, get_set_rec_same. reflexivity.
           -- rewrite nget_nset_other in Hy by exact Hu.
              apply (thread_ok_frame s _ u y (HA u y Hy)); [reflexivity|].
@@ -209,12 +209,12 @@ Section Count.
     destruct (t_pc x) as [|r' [|]|r' [|]|r' [|]| | |r' tmp [|]|r' [|]| |] eqn:Hpc; try contradiction.
     - inversion Hstep; subst s'. unfold lookup_next. rewrite Hc. cbn [key_of]. rewrite Hi.
       eexists. split; [reflexivity|]. split; [reflexivity|]. split; [first [reflexivity | cbn [t_cmd with_pc]; congruence]|]. right. split; [reflexivity|]. reflexivity.
-    - destruct Hp as [-> Hh]. inversion Hstep; subst s'. unfold try_lock. rewrite Hc. cbn [is_reader negb].
+    - destruct Hp as [-> Hh]. inversion Hstep; subst s'. unfold try_lock, holds_rec. rewrite Hh. cbn [existsb]. rewrite Hc. cbn [is_reader negb].
       rewrite (proj2 (HB r)). destruct (lock_free true (get_rec r s)).
       + eexists. split; [reflexivity|]. split; [reflexivity|]. split; [first [reflexivity | cbn [t_cmd with_pc]; congruence]|]. right. split; [reflexivity|].
         intro r0. rewrite get_rec_set_th. destruct (Nat.eq_dec r0 r) as [->|Hr]; [now rewrite get_set_rec_same|now rewrite get_set_rec_other].
       + eexists. split; [reflexivity|]. split; [reflexivity|]. split; [first [reflexivity | cbn [t_cmd with_pc]; congruence]|]. right. split; reflexivity.
-    - destruct Hp as [-> Hh]. inversion Hstep; subst s'. unfold try_lock. rewrite Hc. cbn [is_reader negb].
+    - destruct Hp as [-> Hh]. inversion Hstep; subst s'. unfold try_lock, holds_rec. rewrite Hh. cbn [existsb]. rewrite Hc. cbn [is_reader negb].
       rewrite (proj2 (HB r)). destruct (lock_free true (get_rec r s)).
       + eexists. split; [reflexivity|]. split; [reflexivity|]. split; [first [reflexivity | cbn [t_cmd with_pc]; congruence]|]. right. split; [reflexivity|].
         intro r0. rewrite get_rec_set_th. destruct (Nat.eq_dec r0 r) as [->|Hr]; [now rewrite get_set_rec_same|now rewrite get_set_rec_other].
